@@ -148,7 +148,7 @@ fn gen_instant(rng: &mut Rng) -> Instant {
     Instant { secs, nanos }
 }
 fn gen_text(rng: &mut Rng) -> String {
-    (*rng.pick(&["random_lp", "", "title with spaces", "日本語のタイトル", "MIT OR Apache-2.0", "miplib2017", "a=b;c", "x\"y", " lead"])).to_string()
+    (*rng.pick(&["random_lp", "", "title with spaces", "日本語のタイトル", "MIT OR Apache-2.0", "miplib2017", "a=b;c", "x\"y", " lead", "trail \t", "a,b, c", "two\nlines\r\n", "\u{1F600}\u{3000}", "{\"json\": [1, 2]}", "null", "0"])).to_string()
 }
 fn gen_digest(rng: &mut Rng) -> String {
     format!("sha256:{:064x}", rng.next() as u128 * 0x1_0000_0001u128)
@@ -169,7 +169,7 @@ fn gen_ann(rng: &mut Rng, kind: Kind) -> Ann {
                 a.title = Some(gen_text(rng));
             }
             if rng.chance(1, 2) {
-                a.authors = Some((0..rng.below(4)).map(|_| (*rng.pick(&["Alice", "Bob B.", "山田 太郎", "c@example.org", "D"])).to_string()).collect());
+                a.authors = Some((0..rng.below(4)).map(|_| (*rng.pick(&["Alice", "Bob B.", "山田 太郎", "c@example.org", "D", " lead", "trail ", "\tTab", "\u{3000}全角\u{3000}", "a  b", "O'Brien \"Q\"", "\u{1F600}", "two\nlines", "x;y"])).to_string()).collect());
             }
             if rng.chance(2, 3) {
                 a.created = Some(if rng.chance(1, 3) { Created::Now } else { Created::At(gen_instant(rng)) });
